@@ -236,7 +236,8 @@ def examine_circuit_sweep(ctx, rng, n):
             if got is None:
                 ctx.violation(f'C06:circuit-impedance-raises-{type(err).__name__}', f'{str(err)[:80]}', rep)
                 break
-            if abs(got[k] - complex(want)) > 1e-7 * max(abs(complex(want)), 1e-9):
+            zscale = max([abs(complex(want))] + [c['params']['R'] * 1e-6 for c in case['components'] if c['kind'] == 'resistor'] + [1e-9])
+            if abs(got[k] - complex(want)) > 1e-7 * zscale:
                 ctx.violation('C06:wrong-circuit-impedance', f'Z({a!r},{b!r}) at w={w}: {got[k]}, exact {complex(want)}', rep)
                 break
             if w == 0.0:
